@@ -23,6 +23,7 @@ Record env := {
   tsize_raises : bool;       (* _process_transfer_size_option raises something it does not catch *)
   xend : xfer_end;
   send_err_raises : bool;    (* sendto() of a final ERROR packet raises OSError *)
+  close_file_raises : bool;  (* close() of the handler's file object raises (after having closed it) *)
   with_sock : bool;          (* variant: `with self._socket` present (the code: true) *)
   with_file : bool           (* variant: `with self._file` present (the code: true) *)
 }.
@@ -36,6 +37,9 @@ Definition seqc (a : comp) (b : comp) : comp :=
 Definition with_block (present : bool) (r : res) (body : comp) : comp :=
   if present then (Open r :: fst body ++ [Close r], snd body)
   else (Open r :: fst body, snd body).
+(* a `with` whose __exit__ (close) raises: the resource is closed, the exception replaces the body's *)
+Definition with_block_x (present : bool) (close_raises : bool) (r : res) (body : comp) : comp :=
+  let c := with_block present r body in (fst c, snd c || (present && close_raises)).
 
 Definition send_error (e : env) : comp := ([SendError], send_err_raises e).
 
@@ -53,7 +57,7 @@ Definition in_socket (e : env) : comp :=
   match hres e with
   | HTftpError => seqc (ret [LogInfo]) (send_error e)
   | HException => seqc (ret [LogExc]) (send_error e)
-  | HFile => with_block (with_file e) RFile
+  | HFile => with_block_x (with_file e) (close_file_raises e) RFile
                (if tsize_raises e then ([], true) else process_request e)
   end.
 
